@@ -110,6 +110,7 @@ def eval_recv(case):
         return Result([verdict("harness", "C13/metadata-refused", repr(res.exc))], False, ["metadata-refused"], {})
     trace = []
     ended_at = None
+    t_last = None
     for i, op in enumerate(case["timeline"] + ["idle", "idle"]):
         kind = op if isinstance(op, str) else op[0]
         pdu = None
@@ -119,11 +120,18 @@ def eval_recv(case):
             pdu = EofPdu(conf(), csum, size)
         elif kind in ("tick", "tickseg"):
             extra = op[2] if kind == "tickseg" else (op[1] if not isinstance(op, str) else 1)
-            d = sim.CLOCK.next_deadline()
-            if d is not None:
-                sim.CLOCK.now = d + extra
+            # the clock is moved by the model: the receiver's check timer (its own interval, not the sender's) runs from
+            # the call that handled the EOF and is restarted by every call that notices an expiry
+            if t_last is not None:
+                sim.CLOCK.now = max(sim.CLOCK.now, t_last + cfg["chk_ms_dst"] + extra)
+                t_last = sim.CLOCK.now
             if kind == "tickseg":
                 pdu = seg_pdu(op[1])
+        elif kind == "almost":
+            if t_last is not None and t_last + cfg["chk_ms_dst"] - 1 > sim.CLOCK.now:
+                sim.CLOCK.now = t_last + cfg["chk_ms_dst"] - 1
+        if kind == "eof" and t_last is None:
+            t_last = sim.CLOCK.now
         res = rig.call(pdu)
         trace.append([kind if isinstance(op, str) else list(op), h.step.name, None if res.exc is None else type(res.exc).__name__, [sim.pdu_kind(p) for p in res.out]])
         if res.exc is not None and not res.lib:
@@ -250,6 +258,7 @@ def eval_send(case):
     if eof is None:
         return Result([verdict("harness", "C13/send/no-eof", "sender never emitted its EOF")], False, ["send"], {})
     tid = sim.tid_plain(h.transaction_id)
+    t_eof = sim.CLOCK.now
     conf = lambda: sim.pdu_conf_for(cfg, eof.transaction_seq_num.value, "NAK", direction=sim.Direction.TOWARDS_SENDER)
     trace = []
     decided = None  # ("fin", op) | ("expiry", op) | ("either", op)
@@ -258,9 +267,11 @@ def eval_send(case):
         kind = op if isinstance(op, str) else op[0]
         pdu = None
         if kind in ("tick", "tickfin"):
-            d = sim.CLOCK.next_deadline()
-            if d is not None:
-                sim.CLOCK.now = d + (op[-1] if not isinstance(op, str) else 1)
+            # model-owned clock: the sender's check timer (the sending entity's interval) runs from the call that emitted the EOF
+            sim.CLOCK.now = max(sim.CLOCK.now, t_eof + cfg["chk_ms_src"] + (op[-1] if not isinstance(op, str) else 1))
+        elif kind == "almost":
+            if t_eof + cfg["chk_ms_src"] - 1 > sim.CLOCK.now:
+                sim.CLOCK.now = t_eof + cfg["chk_ms_src"] - 1
         if kind in ("fin", "tickfin"):
             cond = op[1]
             fp = FinishedParams(
@@ -347,8 +358,10 @@ def replay(case):
 SEG = 4
 
 
-def _cfg(csum, closure, L, chk_ms=1000):
-    return {"mode": "NAK", "closure": closure, "crc_type": csum, "check_limit": L, "chk_ms_dst": chk_ms, "chk_ms_src": chk_ms, "max_seg": SEG, "max_pkt": 64}
+def _cfg(csum, closure, L, chk_ms=1000, other_ms=None):
+    """chk_ms: interval of the check timer of the entity under test; other_ms: the other role's interval (differs on
+    purpose: a handler asking the provider for the wrong role's timer shows as an early or missing expiry)"""
+    return {"mode": "NAK", "closure": closure, "crc_type": csum, "check_limit": L, "chk_ms_dst": chk_ms, "chk_ms_src": other_ms if other_ms is not None else chk_ms, "max_seg": SEG, "max_pkt": 64}
 
 
 def exhaustive_cases(shard, nshards, tier):
@@ -371,7 +384,7 @@ def exhaustive_cases(shard, nshards, tier):
                         if s < L:
                             tl.append(["tick", (s * 7) % 3])
                     tl2 = tl + [["tick", 1]]  # one more expiry: must change nothing once the transaction is over
-                    yield {"part": "recv", "cfg": _cfg(csum, closure, L), "n": n, "seg": SEG, "size": size, "pat": b"\x21\x43\x65\x87\xa9", "timeline": tl2}
+                    yield {"part": "recv", "cfg": _cfg(csum, closure, L, 1000, 77 if (n + L) % 2 else 9000), "n": n, "seg": SEG, "size": size, "pat": b"\x21\x43\x65\x87\xa9", "timeline": tl2}
     # sender side
     for csum, size in itertools.product(["CRC_32", "CRC_32C", "MODULAR", "NULL_CHECKSUM"], [0, 1, SEG, 2 * SEG + 1]):
         for tl in (
@@ -383,6 +396,8 @@ def exhaustive_cases(shard, nshards, tier):
             ["tick"],
             ["idle", "idle", ["tick", 0]],
             ["idle", ["tick", 500]],
+            ["almost", "tick"],
+            ["almost", ["fin", 0]],
             [["tickfin", 0, 0]],
             [["tickfin", 0, 1]],
             ["tick", ["fin", 0]],
@@ -391,7 +406,10 @@ def exhaustive_cases(shard, nshards, tier):
             idx += 1
             if idx % nshards != shard:
                 continue
-            yield {"part": "send", "cfg": _cfg(csum, True, 2), "seg": SEG, "size": size, "pat": b"\x10\x20\x30", "timeline": tl}
+            for other in (77, 9000):
+                c = _cfg(csum, True, 2)
+                c["chk_ms_src"], c["chk_ms_dst"] = 1000, other
+                yield {"part": "send", "cfg": c, "seg": SEG, "size": size, "pat": b"\x10\x20\x30", "timeline": tl}
 
 
 @st.composite
@@ -400,12 +418,13 @@ def sampled_case(draw):
         csum = draw(st.sampled_from(["CRC_32", "CRC_32C", "MODULAR", "NULL_CHECKSUM"]))
         size = draw(st.integers(0, 40))
         op = st.one_of(
-            st.just("idle"),
+            st.just("idle"), st.just("almost"),
             st.tuples(st.just("tick"), st.integers(0, 2000)).map(list),
             st.tuples(st.just("fin"), st.sampled_from([0, 0, 4, 5, CL, 15])).map(list),
             st.tuples(st.just("tickfin"), st.sampled_from([0, 4]), st.integers(0, 3)).map(list),
         )
-        cfg = _cfg(csum, True, draw(st.integers(1, 3)), draw(st.sampled_from([2, 10, 1000])))
+        cfg = _cfg(csum, True, draw(st.integers(1, 3)))
+        cfg["chk_ms_src"], cfg["chk_ms_dst"] = draw(st.sampled_from([[2, 1000], [10, 3], [1000, 20], [1000, 60000], [50, 50]]))
         cfg["max_seg"] = draw(st.sampled_from([1, 3, 4, 16]))
         return {"part": "send", "cfg": cfg, "seg": cfg["max_seg"], "size": size, "pat": draw(st.binary(min_size=1, max_size=8)), "timeline": draw(st.lists(op, max_size=6))}
     csum = draw(st.sampled_from(["CRC_32", "CRC_32C"]))
@@ -414,7 +433,7 @@ def sampled_case(draw):
     seg = draw(st.sampled_from([1, 2, 4, 16]))
     short = draw(st.integers(0, seg - 1))
     size = n * seg - short
-    cfg = _cfg(csum, draw(st.booleans()), L, draw(st.sampled_from([2, 3, 1000])))
+    cfg = _cfg(csum, draw(st.booleans()), L, draw(st.sampled_from([2, 3, 1000])), draw(st.sampled_from([1, 40, 70000])))
     cfg["max_seg"] = seg
     cfg["disposition"] = draw(st.booleans())
     late = draw(st.lists(st.integers(0, n - 1), min_size=1, max_size=n, unique=True))
@@ -436,7 +455,7 @@ def sampled_case(draw):
                 if draw(st.integers(0, 5)) == 0 and early:
                     tl.append(["seg", draw(st.sampled_from(early))])
         if draw(st.integers(0, 3)) == 0:
-            tl.append("idle")
+            tl.append(draw(st.sampled_from(["idle", "almost"])))
         ties = [i for slot, tie, i in ops if slot == s and tie]
         extra = draw(st.sampled_from([0, 0, 1, 1, 2, 999, 1000, 5000]))
         if ties:
